@@ -177,6 +177,24 @@ def run(ctx: core.Ctx):
                 ctx.fail(name, dict(config="eager numpy, second call on the same object"), "differs from the first call", "the same result")
         except Exception as e:  # noqa: BLE001
             ctx.fail(name, dict(config="second call"), repr(e)[:160], "no exception")
+        # the same for a float64 cube: there NumPy hands the kernel a VIEW of the caller's memory (no cast copy), so an in-place
+        # clean-up inside a gufunc would overwrite the caller's placeholders (operations that refuse float input are skipped)
+        f64 = cube.astype("float64")
+        basef = xr.DataArray(f64.copy(), dims=("time", "y", "x"), coords=coords, attrs={"nodata": nd})
+        try:
+            rf = op(basef).compute()
+        except Exception:  # noqa: BLE001
+            rf = None
+        if rf is not None:
+            ctx.count("float64 input left unmodified")
+            if not np.array_equal(np.asarray(basef), f64):
+                ctx.fail(name, dict(config="eager numpy, float64 cube"), "the input cube was modified in place", "inputs are left as they were")
+            else:
+                try:
+                    if not same(rf, op(basef).compute()):
+                        ctx.fail(name, dict(config="eager numpy, float64 cube, second call on the same object"), "differs from the first call", "the same result")
+                except Exception as e:  # noqa: BLE001
+                    ctx.fail(name, dict(config="float64 cube, second call"), repr(e)[:160], "no exception")
         for order in orders:
             dord = base.transpose(*order)
             try:
